@@ -46,6 +46,12 @@ CHECKS = {
  "C11": ("dispatchsim", "exploration", "deterministic simulation of the dispatcher: generated system graphs with runtime-composed system data built from the real reads()/writes()/fetch(); (1) declaration-vs-borrow probing, (2) shred's printed stage plan executed on the baton scheduler, (3) adversarial maximal-parallel executor; reader/writer monitor",
          "Every system once, no writer overlapping another user of the same storage, dependencies respected, no borrow panic; what a storage handle borrows equals what it declares.",
          "shred's Stage::execute/rayon replaced by baton tasks; planner behaviour is shred's", "DESIGN.md 3/E3, 4/C11"),
+ "C15": ("savesim", "exploration", "deterministic simulation with stream faults: seeded mark/delete/maintain/allocator-maintain/serialise/deserialise histories over two worlds; the byte stream is owned by the simulator (truncation, byte corruption, failing writer); before/after observation oracle with independently parsed data",
+         "After every step live marker ids are unique; marking a marked entity returns its marker; a successful load updates existing carriers in place, creates entities only for unknown ids, sets/removes component types as the data says, resolves references by marker, leaves everything else untouched.",
+         "SimpleMarker only; the stale allocator mapping is the deferred state that makes this a simulation target", "DESIGN.md 3/E4, 4/C15"),
+ "C20": ("twin", "exploration", "deterministic simulation turned on itself: per-seed transcript (handles, results, join orders, event streams, serialised bytes) computed twice in one process with heap/hasher perturbation in between and again in a different batch of worker processes; all hashes must agree",
+         "Same-process twin worlds and cross-process re-execution (different hash seeds, address layout, worker count) produce identical transcripts for every seed.",
+         "ahash's per-process keys have no seam and are varied by re-executing in other processes; destructor order in hash-map storages is not an observable the property lists", "DESIGN.md 4/C20"),
 }
 
 NOT_APPLICABLE = {
@@ -88,6 +94,8 @@ def main():
             "add_only": True,
         },
         "engines": [
+            {"name": "savesim", "path": "/verif/dst/src/savesim.rs", "serves_properties": ["C15"], "kind_free_text": "marker/save-load histories over two worlds with stream faults"},
+            {"name": "twin", "path": "/verif/dst/src/twin.rs", "serves_properties": ["C20"], "kind_free_text": "twin-run and cross-process transcript comparison"},
             {"name": "joinsim", "path": "/verif/dst/src/joinsim.rs", "serves_properties": ["C07", "C13"], "kind_free_text": "parallel joins under a simulated work-stealing bridge (seeded split tree + baton tasks) and under rayon's real bridge on a virtual pool"},
             {"name": "dispatchsim", "path": "/verif/dst/src/dispatchsim.rs", "serves_properties": ["C11"], "kind_free_text": "system graphs: declaration-vs-borrow, shred's plan on the baton executor, adversarial executor"},
             {"name": "worldsim", "path": "/verif/dst/src/wexec.rs", "serves_properties": [p for p,(e,*_) in CHECKS.items() if e == "worldsim"], "kind_free_text": "frame-loop simulator: real specs::World vs reference model, baton-scheduled parallel phases, destructor-fault injection, crash = world dropped mid-frame"},
